@@ -127,6 +127,8 @@ pub fn append_stream(ctx: &mut Ctx) {
 		history::<Vec<u8>>(ctx, "Vec<u8>", &mut rng, deque, start, &batches);
 		history::<()>(ctx, "()", &mut rng, deque, start, &batches);
 		history::<TwinU32>(ctx, "TwinU32", &mut rng, deque, start, &batches);
+		// zero-sized in memory, one byte on the wire
+		history::<crate::derived::Marker>(ctx, "Marker", &mut rng, deque, start, &batches);
 	}
 	// alias item forms: &str items into a Vec<String>, &&T, Box<T>
 	for _ in 0..rounds {
@@ -165,7 +167,7 @@ pub fn append_stream(ctx: &mut Ctx) {
 		(1 << 30) + 1, (1 << 32) - 3, (1 << 32) - 2, (1 << 32) - 1, 1 << 31,
 	];
 	for &n in &big {
-		for &m in &[0u64, 1, 2, 63, 64, 1 << 14, (1 << 30) - 1, 1 << 30, (1 << 32) - 2, (1 << 32) - 1, 1 << 32, (1 << 32) + 1, (1 << 33) + 7, u64::MAX] {
+		for &m in &[0u64, 1, 2, 63, 64, 1 << 14, (1 << 30) - 1, 1 << 30, (1 << 30) + 1, (1 << 30) + 2, 3 << 30, (1 << 32) - (1 << 14), (1 << 32) - 2, (1 << 32) - 1, 1 << 32, (1 << 32) + 1, (1 << 33) + 7, u64::MAX] {
 			let payload: Vec<u8> = (0..rng.below(4)).map(|_| rng.below(256) as u8).collect();
 			forged(ctx, n as u32, &payload, m as usize, 2);
 		}
